@@ -1,4 +1,5 @@
 import LabtechModel.Proofs.ParamsCache
+import LabtechModel.Proofs.ClassRes
 /-!
 # C09 — cached_tasks reconstructs every cached task faithfully
 
@@ -119,5 +120,184 @@ example : cachedTasks exEnv [cExp, ⟨"ptasks", "Experiment"⟩, cExp] (exSaved.
     = .ok [expected exEnv ⟨tExperiment, pickleFmt, "m1"⟩, expected exEnv ⟨tExp, pickleFmt, "m2"⟩] := by
   rw [cached_tasks_exact exEnv _ exSaved ex_hyps.1 ex_hyps.2.1 ex_hyps.2.2]
   rfl
+
+end Lt.Params.C09
+
+/-!
+# C09, class and enum-member resolution (`deserialize_class` since D26, `deserialize_enum` since D27)
+
+`cached_tasks` rebuilds a task from its `__class__` strings.  The theorems above take the class lookup as given
+(`Reg`, asked with the pair that splitting at the last dot yields).  The ones below are about the lookup itself, in
+the model `Lt.ClassRes` (`Model/ClassRes.lean`): a *world* says which dotted paths are importable modules, which of
+them fail with a missing dependency, and which attribute chains exist on a module; `resolve w s` is the algorithm
+of `deserialize_class` (import the part before the last dot; on `ModuleNotFoundError` for a prefix of that path move
+one component to the attribute path; then `getattr` along the attributes), `resolveOld` the rule before D26.
+`memberName` / `enumMember` are `serialize_enum` / `deserialize_enum` on a class's member table (Flag values are
+`Nat` bit sets).  The model is tied to the real functions by the `CLSRES` correspondence check (harness/clsres.py).
+-/
+namespace Lt.Params.C09
+open Lt.ClassRes
+
+/-- **(a) Round trip.**  A class with module path `m` (importable: every parent is a module and none fails while it
+executes) and qualified name `q` (every prefix of `q` is an attribute chain of `m`) is found again from its
+serialisation - PROVIDED no `m ++ q.take i` with `0 < i < |q|` is itself an importable module (`NoShadow`).
+Nesting depth is arbitrary. -/
+theorem class_roundtrip (w : World) (m q : List String) (hm : m ≠ []) (hq : q ≠ [])
+    (hdot : ∀ c ∈ m ++ q, freeOf '.' c = true)
+    (himp : Importable w m) (hattr : HasAttrPath w m q) (hns : NoShadow w m q) :
+    resolve w (ser m q) = .ok (m, q) := by
+  simp only [resolve, ser]
+  rw [splitStr_joinStr '.' (m ++ q) (by simp [hm]) hdot]
+  exact resolveComps_roundtrip w m q hm himp hq hattr hns
+
+/-- … and `ser m q` is the string the serialisation model above writes (`ClassRef.ser`) for the class with
+`__module__ = '.'.join(m)` and `__qualname__ = '.'.join(q)` -/
+theorem class_roundtrip_classRef (w : World) (m q : List String) (hm : m ≠ []) (hq : q ≠ [])
+    (hdot : ∀ c ∈ m ++ q, freeOf '.' c = true)
+    (himp : Importable w m) (hattr : HasAttrPath w m q) (hns : NoShadow w m q) :
+    resolve w (ClassRef.ser ⟨joinStr '.' m, joinStr '.' q⟩) = .ok (m, q) := by
+  rw [← ser_eq_classRef_ser m q hm hq]
+  exact class_roundtrip w m q hm hq hdot himp hattr hns
+
+/-- a package `pkg.mod` whose `__init__` defines `ModelA` with a nested `Variant`, next to a submodule
+`pkg/mod/ModelA.py` that defines a class `Variant` of its own -/
+def shadowWorld : World where
+  modules := [["pkg"], ["pkg", "mod"], ["pkg", "mod", "ModelA"]]
+  broken := []
+  attrs := [(["pkg", "mod"], [["ModelA"], ["ModelA", "Variant"]]), (["pkg", "mod", "ModelA"], [["Variant"]])]
+
+/-- **(a) WITNESS: `NoShadow` is needed.**  All other hypotheses of `class_roundtrip` hold for the class
+`pkg.mod` / `ModelA.Variant` of `shadowWorld`, yet the serialisation resolves to ANOTHER object: the class `Variant`
+of the submodule named like the holder class. -/
+theorem class_roundtrip_needs_noShadow :
+    Importable shadowWorld ["pkg", "mod"] ∧ HasAttrPath shadowWorld ["pkg", "mod"] ["ModelA", "Variant"]
+    ∧ ¬ NoShadow shadowWorld ["pkg", "mod"] ["ModelA", "Variant"]
+    ∧ resolve shadowWorld (ser ["pkg", "mod"] ["ModelA", "Variant"]) = .ok (["pkg", "mod", "ModelA"], ["Variant"])
+    ∧ resolve shadowWorld (ser ["pkg", "mod"] ["ModelA", "Variant"]) ≠ .ok (["pkg", "mod"], ["ModelA", "Variant"]) := by
+  refine ⟨?_, ?_, ?_, by decide, by decide⟩
+  · intro i h1 h2
+    have : i = 1 ∨ i = 2 := by simp at h2; omega
+    rcases this with rfl | rfl <;> decide
+  · intro i h1 h2
+    have : i = 1 ∨ i = 2 := by simp at h2; omega
+    rcases this with rfl | rfl <;> decide
+  · intro h
+    exact absurd (h 1 (by omega) (by simp)) (by decide)
+
+/-- **(b) Conservative extension.**  Whenever the rule before D26 (split at the last dot, import, one `getattr`)
+finds an object, the new rule finds the same object … -/
+theorem class_old_success_kept (w : World) (s : String) (o : Obj) (h : resolveOld w s = .ok o) :
+    resolve w s = .ok o :=
+  resolveComps_old_ok w _ o h
+
+/-- … and whenever the new rule fails, the old rule failed with the same error: the repair only turned failures
+into successes. -/
+theorem class_error_same_as_old (w : World) (s : String) (e : ResErr) (h : resolve w s = .error e) :
+    resolveOld w s = .error e :=
+  resolveComps_error w _ e h
+
+/-- **(c)** For a module-level class (qualified name without a dot) `NoShadow` is vacuous: the round trip needs only
+"`m` is importable and has the attribute". -/
+theorem class_roundtrip_toplevel (w : World) (m : List String) (c : String) (hm : m ≠ [])
+    (hdot : ∀ x ∈ m ++ [c], freeOf '.' x = true)
+    (himp : Importable w m) (hattr : (w.attrsOf m).contains [c] = true) :
+    resolve w (ser m [c]) = .ok (m, [c]) := by
+  apply class_roundtrip w m [c] hm (by simp) hdot himp
+  · intro i h1 h2
+    have : i = 1 := by simp at h2; omega
+    subst this
+    simpa using hattr
+  · intro i h1 h2
+    simp at h2
+    omega
+
+/-- **(d) Strings that name nothing, 1**: the first component is no importable module - `ModuleNotFoundError`, as
+under the old rule. -/
+theorem class_unknown_top_module (w : World) (s c0 : String) (rest : List String)
+    (hs : splitStr '.' s = c0 :: rest) (hrest : rest ≠ []) (h : w.modules.contains [c0] = false) :
+    resolve w s = .error .moduleNotFound ∧ resolveOld w s = .error .moduleNotFound := by
+  simp only [resolve, resolveOld, hs]
+  exact resolveComps_unknown_top w c0 rest hrest h
+
+/-- **(d) Strings that name nothing, 2**: an importable module path followed by one name that is neither an
+attribute of the module nor a submodule - `AttributeError`, as under the old rule. -/
+theorem class_unknown_attribute (w : World) (s : String) (M : List String) (a : String)
+    (hs : splitStr '.' s = M ++ [a]) (hM : M ≠ []) (himp : Importable w M)
+    (hattr : (w.attrsOf M).contains [a] = false) (hmod : w.modules.contains (M ++ [a]) = false) :
+    resolve w s = .error .attributeError ∧ resolveOld w s = .error .attributeError := by
+  simp only [resolve, resolveOld, hs]
+  exact resolveComps_unknown_attr w M a hM himp hattr hmod
+
+/-- **(e) D27, round trip.**  For every enum class with distinct identifier member names and every value `v` the
+class can build (a member; for a Flag any OR of single-bit members, plus unnamed bits under boundary KEEP),
+`deserialize_enum` maps the name `serialize_enum` writes - the member's name, `'R|W'`, `'A|8'`, `'0'` - back to `v`. -/
+theorem enum_roundtrip (e : EnumCls) (hwf : e.WF) (v : Nat) (s : String) (h : memberName e v = some s) :
+    enumMember e s = .ok v :=
+  enumMember_memberName e hwf v s h
+
+/-- a name is written for exactly the values the class can build -/
+theorem enum_name_defined (e : EnumCls) (v : Nat) : (memberName e v).isSome = e.valid v :=
+  memberName_isSome e v
+
+/-- **(e) D27, injectivity** (the C07 half): two different values of one class never share a serialised name. -/
+theorem enum_name_injective (e : EnumCls) (hwf : e.WF) (v₁ v₂ : Nat) (s : String)
+    (h₁ : memberName e v₁ = some s) (h₂ : memberName e v₂ = some s) : v₁ = v₂ :=
+  memberName_injective e hwf v₁ v₂ s h₁ h₂
+
+/-- `class Bits(IntFlag): A = 1; B = 2` -/
+def exBits : EnumCls := ⟨[("A", 1), ("B", 2)], true, true⟩
+/-- `class Perm(Flag): R = 1; W = 2; X = 4` -/
+def exPerm : EnumCls := ⟨[("R", 1), ("W", 2), ("X", 4)], true, false⟩
+
+theorem exBits_wf : exBits.WF := ⟨by decide, by decide⟩
+theorem exPerm_wf : exPerm.WF := ⟨by decide, by decide⟩
+
+/-- **(e) WITNESS: the naming before D27 is not injective** - the empty flag and a value of unnamed bits both have
+the name `None` -, and a combination's name could not be looked up again. -/
+theorem enum_old_naming_defective :
+    memberNameOld exBits 0 = some none ∧ memberNameOld exBits 8 = some none
+    ∧ memberNameOld exPerm 3 = some (some "R|W") ∧ enumMemberOld exPerm "R|W" = .error .keyError := by
+  decide
+
+/-! ### non-vacuity -/
+
+/-- a module `pkg.leaf` with `class C: class D: class E`, a package `pkg` with `Top.In`, a module with a missing
+dependency -/
+def exWorld : World where
+  modules := [["pkg"], ["pkg", "leaf"], ["pkg", "brk"]]
+  broken := [["pkg", "brk"]]
+  attrs := [(["pkg"], [["Top"], ["Top", "In"]]), (["pkg", "leaf"], [["C"], ["C", "D"], ["C", "D", "E"]]),
+            (["pkg", "brk"], [["B"]])]
+
+/-- three levels deep: found by the new rule, not by the old one -/
+example : resolve exWorld "pkg.leaf.C.D.E" = .ok (["pkg", "leaf"], ["C", "D", "E"])
+    ∧ resolveOld exWorld "pkg.leaf.C.D.E" = .error .moduleNotFound := by decide
+/-- … which is `class_roundtrip` at this instance -/
+example : resolve exWorld (ser ["pkg", "leaf"] ["C", "D", "E"]) = .ok (["pkg", "leaf"], ["C", "D", "E"]) := by
+  apply class_roundtrip exWorld _ _ (by simp) (by simp) (by decide)
+  · intro i h1 h2
+    have : i = 1 ∨ i = 2 := by simp at h2; omega
+    rcases this with rfl | rfl <;> decide
+  · intro i h1 h2
+    have : i = 1 ∨ i = 2 ∨ i = 3 := by simp at h2; omega
+    rcases this with rfl | rfl | rfl <;> decide
+  · intro i h1 h2
+    have : i = 1 ∨ i = 2 := by simp at h2; omega
+    rcases this with rfl | rfl <;> decide
+/-- which error surfaces: `AttributeError` when nothing was shifted, the `ModuleNotFoundError` otherwise; a missing
+dependency is re-raised; a module path resolves to the module; no dot is a `ValueError` -/
+example : resolve exWorld "pkg.leaf.X" = .error .attributeError
+    ∧ resolve exWorld "pkg.leaf.C.D.X" = .error .moduleNotFound
+    ∧ resolve exWorld "nope.C" = .error .moduleNotFound
+    ∧ resolve exWorld "pkg.brk.B" = .error .moduleNotFound
+    ∧ resolve exWorld "pkg.leaf" = .ok (["pkg", "leaf"], [])
+    ∧ resolve exWorld "pkg" = .error .valueError := by decide
+/-- in `shadowWorld` the holder class itself is still found (the `fromlist` import prefers the attribute) -/
+example : resolve shadowWorld "pkg.mod.ModelA" = .ok (["pkg", "mod"], ["ModelA"]) := by decide
+/-- Flag names as D27 writes and reads them -/
+example : memberName exPerm 3 = some "R|W" ∧ memberName exBits 9 = some "A|8" ∧ memberName exBits 0 = some "0"
+    ∧ memberName exBits 8 = some "8" ∧ memberName exPerm 8 = none
+    ∧ enumMember exPerm "R|W" = .ok 3 ∧ enumMember exBits "A|8" = .ok 9 ∧ enumMember exBits "0" = .ok 0
+    ∧ enumMember exBits "A|Q" = .error .keyError ∧ enumMember exPerm "R|8" = .error .keyError := by decide
 
 end Lt.Params.C09
